@@ -171,3 +171,11 @@ func sourceFor(b []byte) io.ReadSeeker {
 	}
 	return bytes.NewReader(b)
 }
+
+// textSource: a plain reader for even lengths, a short-reading one for odd lengths.
+func textSource(b []byte) io.Reader {
+	if len(b)%2 == 1 {
+		return newDribble(b)
+	}
+	return bytes.NewReader(b)
+}
